@@ -288,7 +288,21 @@ def job_pow2(res, fn):
             confirm(res, PID, HARNESS, 'h_' + fn, [('i32', mv)], 'i32', fn, ORACLES, f'{fn}:value', f'{fn} wrong for m={sgn(mv, 32)}')
         else: res.inc(f'{fn} query unknown')
 
-JOBFNS = {'history': job_history, 'isprime16': job_isprime16, 'factor_small': job_factor_small, 'primes_small': job_primes_small, 'guard': job_guard, 'pow2': job_pow2}
+NEEDLES = [2047, 3277, 4033, 1373653, 1530787, 25326001, 3215031751, 2152302898 + 1, 4759123141 % 2 ** 32, 561, 1105, 41041, 825265, 321197185, 4294901761 - 2, 4294967291, 4294967279, 4294967295, 2147483647,
+           65521 * 65521, 65521 * 65537, 65537 * 65539 % 2 ** 32, 46337 * 46349, 3 * 1431655751, 4294836225, 4294705156 + 1, 3825123056546413051 % 2 ** 32, 341550071728321 % 2 ** 32, 2 ** 31 - 1, 2 ** 31 + 11, 4293001441, 4292870399]
+def job_needles(res, ns):
+    """ground obligations at adversarial 32-bit values (strong pseudoprimes to small prime bases, Carmichael numbers, products of two primes next to 2^16, the largest 32-bit primes): the interpreted real code must agree with the definition"""
+    mod, so = load(HARNESS)
+    for n in ns:
+        m = Machine(mod, max_steps=400_000_000)
+        try: r = m.call('@h_isprime', [n])
+        except (Budget, UB, Throw) as e: res.absorb(m); res.inc(f'isprime({n}): {type(e).__name__} {str(e)[:100]}'); continue
+        res.absorb(m); ok = bool(r) == py_isprime(n)
+        sol = z3.Solver(); sol.add(z3.Not(z3.BoolVal(ok)))
+        if timed_check(sol, res) == z3.unsat: res.ob(True, 'ground', f'isprime({n}) == {int(py_isprime(n))}')
+        else: confirm(res, PID, HARNESS, 'h_isprime', [('i32', n)], 'i32', 'isprime', ORACLES, f'isprime:needle:{n}', f'isprime({n}) returns {r}, definition says {int(py_isprime(n))}')
+
+JOBFNS = {'needles': job_needles, 'history': job_history, 'isprime16': job_isprime16, 'factor_small': job_factor_small, 'primes_small': job_primes_small, 'guard': job_guard, 'pow2': job_pow2}
 
 def selftest(st):
     mod, so = load(HARNESS)
@@ -322,6 +336,8 @@ def main(tier, seed):
         jobs.append((f'primes[{lo},{hi})', 'primes_small', dict(lo=lo, hi=hi, fn='primes'), 1500))
         jobs.append((f'nextprime[{lo},{hi})', 'primes_small', dict(lo=lo, hi=hi, fn='nextprime'), 1500))
     jobs += [(f'nextprime history {f}', 'history', dict(first=f, lo=lo, hi=lo + 128), 900) for f in (1000, 300) for lo in (0, 128, 256)]
+    K = sorted(set(x for x in NEEDLES if 65536 <= x < 2 ** 32))
+    for i in range(0, len(K), 2): jobs.append((f'isprime needles {K[i]}..', 'needles', dict(ns=K[i:i + 2]), 900))
     jobs += [('guard:isprime', 'guard', dict(fn='isprime'), 600), ('guard:factor', 'guard', dict(fn='factor'), 600)]
     jobs += [('nextpow2', 'pow2', dict(fn='nextpow2'), 600), ('ispow2', 'pow2', dict(fn='ispow2'), 600)]
     return run_property(PID, tier, HARNESS, jobs, JOBFNS,
